@@ -77,8 +77,10 @@ Obs(w, max) == ObsFrom(Messages(w, max), 1, << >>)
 (* carries exactly one CoAP message (Len nibble 0); a frame longer than the receive buffer ends the session.       *)
 WsFrameMax == 1472
 Unmask(w, at, n, key) == [k \in 1..n |-> w[at + k - 1] ^^ key[((k - 1) % 4) + 1]]
-RECURSIVE WsFrom(_, _, _)
-WsFrom(w, i, acc) ==
+RECURSIVE WsFromR(_, _, _, _)
+\* srv: the reader is the server side (frames come from a client and must be masked); otherwise the reader is a client and the
+\* frames come from a server, which must not mask (RFC 6455 section 5.1) - what libcoap makes of a masked frame then is not judged
+WsFromR(w, i, acc, srv) ==
   IF i + 1 > Len(w) THEN acc                                                   \* fewer than two header bytes
   ELSE IF ~Lits(w, i, 2) THEN Append(acc, <<"undecidable">>)
   ELSE LET b0 == w[i]
@@ -87,8 +89,9 @@ WsFrom(w, i, acc) ==
            masked == b1 >= 128
            l7 == b1 % 128
            ext == IF l7 = 126 THEN 2 ELSE IF l7 = 127 THEN 8 ELSE 0
-           hl == 2 + ext + 4
-       IN IF ~masked THEN Append(acc, <<"close">>)                              \* 1002
+           hl == 2 + ext + (IF srv THEN 4 ELSE 0)
+       IN IF srv /\ ~masked THEN Append(acc, <<"close">>)                      \* 1002
+          ELSE IF ~srv /\ masked THEN Append(acc, <<"undecidable">>)
           ELSE IF i + hl - 1 > Len(w) THEN acc                                   \* header incomplete
           ELSE IF ~Lits(w, i, hl) THEN Append(acc, <<"undecidable">>)
           ELSE IF op # 2 THEN Append(acc, <<"close">>)                           \* close frame, or an opcode a CoAP endpoint does not take (1003)
@@ -97,10 +100,38 @@ WsFrom(w, i, acc) ==
                IN IF big \/ n > WsFrameMax THEN Append(acc, <<"close">>)        \* 1009
                   ELSE IF i + hl + n - 1 > Len(w) THEN acc                        \* payload incomplete
                   ELSE IF ~Lits(w, i + hl, n) THEN Append(acc, <<"undecidable">>)
-                  ELSE LET key == SubSeq(w, i + hl - 4, i + hl - 1)
-                           d == DecWS(Unmask(w, i + hl, n, key))
-                       IN WsFrom(w, i + hl + n,
-                                 Append(acc, IF d.ok = "ok" THEN <<"msg", d.m>> ELSE IF d.ok = "bad" THEN <<"bad">> ELSE <<d.ok>>))
-WsMessages(w, hl) == IF Len(w) < hl THEN << >> ELSE WsFrom(w, hl + 1, << >>)
+                  ELSE LET d == IF srv THEN DecWS(Unmask(w, i + hl, n, SubSeq(w, i + hl - 4, i + hl - 1)))
+                                       ELSE DecWS(SubSeq(w, i + hl, i + hl + n - 1))
+                       IN WsFromR(w, i + hl + n,
+                                  Append(acc, IF d.ok = "ok" THEN <<"msg", d.m>> ELSE IF d.ok = "bad" THEN <<"bad">> ELSE <<d.ok>>), srv)
+WsFrom(w, i, acc) == WsFromR(w, i, acc, TRUE)
+
+WsMessagesR(w, hl, srv) == IF Len(w) < hl THEN << >> ELSE WsFromR(w, hl + 1, << >>, srv)
+WsMessages(w, hl) == WsMessagesR(w, hl, TRUE)
 ObsWS(w, hl) == ObsFrom(WsMessages(w, hl), 1, << >>)
+ObsWSR(w, hl, srv) == ObsFrom(WsMessagesR(w, hl, srv), 1, << >>)
+
+(* ---- the HTTP upgrade exchange in front of the frames (RFC 8323 section 8.1, RFC 6455 section 4) --------------- *)
+(* Header lines end with LF (a CR in front of it is dropped); an empty line ends the handshake.  The reader keeps    *)
+(* one line at a time in a fixed buffer: a line with more than MaxHttpLine bytes in front of its LF ends the         *)
+(* session instead of being buffered (C05) - however the bytes arrive.  Whether the lines make a valid upgrade       *)
+(* request / response is not modelled here: the generator of C05 produces valid ones, C02 judges only robustness.    *)
+MaxHttpLine == 158
+MinOf(S) == CHOOSE x \in S : \A y \in S : x <= y
+NextLF(w, from) == LET S == {j \in from..Len(w) : w[j] = 10} IN IF S = {} THEN 0 ELSE MinOf(S)
+\* returns [st |-> "ok", end |-> index of the LF of the empty line] | [st |-> "long"] | [st |-> "incomplete"] | [st |-> "undecidable"]
+RECURSIVE HttpScan(_, _)
+HttpScan(w, from) ==
+  LET j == NextLF(w, from) IN
+  IF \E k \in from..(IF j = 0 THEN Len(w) ELSE j) : w[k] >= 256 \/ w[k] = 0 THEN [st |-> "undecidable", end |-> 0]
+  ELSE IF j = 0 THEN (IF Len(w) - from + 1 > MaxHttpLine THEN [st |-> "long", end |-> 0] ELSE [st |-> "incomplete", end |-> 0])
+  ELSE IF j - from > MaxHttpLine THEN [st |-> "long", end |-> 0]
+  ELSE IF j = from \/ (j = from + 1 /\ w[from] = 13) THEN [st |-> "ok", end |-> j]
+  ELSE HttpScan(w, j + 1)
+\* what is observed on a WebSocket session whose stream starts with the handshake
+ObsWSH(w, srv) == LET h == HttpScan(w, 1) IN
+                  IF h.st = "ok" THEN ObsWSR(w, h.end, srv)
+                  ELSE IF h.st = "long" THEN <<<<"closed">>>>
+                  ELSE IF h.st = "incomplete" THEN << >>
+                  ELSE <<<<"undecidable">>>>
 =============================================================================
